@@ -215,7 +215,32 @@ var storeDecodeUnit = transUnit{Dir: "ddsketch/store", File: "CodeStoreDecode", 
 	},
 	Funcs: []string{"DecodeAndMergeWith"}}
 
-func init() { transUnits = append(transUnits, sketchUnit, datasetUnit, denseUnit, storeDecodeUnit) }
+// identity of a mapping: the tolerance-based equality (for an argument of the receiver's own kind; another kind
+// is `false` by the failed type assertion, which the model states directly) and the binary encoding
+var mapIdUnit = transUnit{Dir: "ddsketch/mapping", File: "CodeMapId", NS: "DDS.Gen.MapId", Mode: "f64",
+	Imports: []string{"DDS.Generated.CodeEncoding"},
+	Specialise: map[string]map[string]string{
+		"LogarithmicMapping.Equals":           {"other": "LogarithmicMapping"},
+		"LinearlyInterpolatedMapping.Equals":  {"other": "LinearlyInterpolatedMapping"},
+		"CubicallyInterpolatedMapping.Equals": {"other": "CubicallyInterpolatedMapping"},
+	},
+	ExternTypes: map[string]string{"encoding.Flag": "DDS.Gen.Encoding.Flag"},
+	ExternVars: map[string]string{
+		"encoding.FlagIndexMappingBaseLogarithmic": "DDS.Gen.Encoding.FlagIndexMappingBaseLogarithmic",
+		"encoding.FlagIndexMappingBaseLinear":      "DDS.Gen.Encoding.FlagIndexMappingBaseLinear",
+		"encoding.FlagIndexMappingBaseCubic":       "DDS.Gen.Encoding.FlagIndexMappingBaseCubic"},
+	ExternFuncs: map[string]externFn{
+		"encoding.EncodeFlag":      {Lean: "DDS.Gen.Encoding.EncodeFlag", MutParams: []int{0}},
+		"encoding.EncodeFloat64LE": {Lean: "DDS.Gen.Encoding.EncodeFloat64LE", Res: true, MutParams: []int{0}},
+	},
+	Funcs: []string{"withinTolerance",
+		"LogarithmicMapping.Equals", "LogarithmicMapping.Encode",
+		"LinearlyInterpolatedMapping.Equals", "LinearlyInterpolatedMapping.Encode",
+		"CubicallyInterpolatedMapping.Equals", "CubicallyInterpolatedMapping.Encode"}}
+
+func init() {
+	transUnits = append(transUnits, sketchUnit, datasetUnit, denseUnit, storeDecodeUnit, mapIdUnit)
+}
 
 type trErr struct{ msg string }
 
